@@ -35,13 +35,18 @@ def run(chk):
     jobs = []
     for secret in secrets:
         for _ in range(3 if th else 2):
-            n_out = rng.choice([1, 16, 17, 33, 200] + ([2000, 5000] if th else [420]))
+            n_out = rng.choice([1, 16, 17, 33, 200, 4095, 4096, 4097, 8192] + ([2000, 5000, 12288, 16384] if th else [420]))
             n_in = rng.choice([1, 15, 16, 32, 150] + ([3000] if th else [380]))
             out = bytes(rng.choice([0, 0xff, rng.randrange(256)]) for _ in range(n_out))
             inc = bytes(rng.randrange(256) for _ in range(n_in))
-            sends = split(out, parts(rng, n_out, rng.choice([0, 1, 3, 10, n_out])))
+            sends = split(out, parts(rng, n_out, rng.choice([0, 0, 1, 3, 10, n_out] if n_out < 3000 else [0, 0, 1, 3])))
             recvs_cuts = parts(rng, n_in, rng.choice([0, 1, 4, n_in]))
             jobs.append((secret, out, inc, sends, recvs_cuts, rng.random() < 0.5))
+    # block-size boundaries in one send, on every run
+    for n_out in (4095, 4096, 4097, 8192):
+        out = bytes((i * 11 + n_out) % 256 for i in range(n_out))
+        inc = bytes(rng.randrange(256) for _ in range(33))
+        jobs.append((secrets[0], out, inc, [out], [], False))
     # the server's ciphertext for the incoming direction comes from the model
     ct_in = run_model([('mc_encrypt', [j[0], [j[2]]]) for j in jobs])
     exp_out = run_model([('mc_encrypt', [j[0], j[3]]) for j in jobs])
